@@ -989,22 +989,33 @@ pred structWf(l *log) :=
     && (forall i :: 0 <= i && i < len(l.readers) - 1 ==> !l.readers[i].head)
     && (!l.opts.Readonly ==> wrS(l.writer) && l.writer.reader == l.readers[len(l.readers)-1])
 
-// ASSUMED (I/O): opens or creates the head segment's files
+func newWriterIndex
+    flags noframe
+    ensures[struct_new] ret0 != nil && fresh(ret0) && ret0.items == items
+                        && ret0.nextOffset == ite(len(items) > 0, items[len(items)-1].Offset + 1, offset)
+                        && ret0.nextTime == ite(len(items) > 0, items[len(items)-1].Timestamp, timestamp)
+
+// opens or creates the head segment's files. The labelled clauses are proved on the body; the UNLABELLED
+// ones speak about what is in the files (I/O) and stay ASSUMED.
 func openWriter
-    flags assumed
+    flags noframe only_struct only_version only_sync
     assigns fPath, fsExists, fsDirty, fsContent
-    ensures ret1 == nil ==> ret0.version == version && ret0.params == params
-    ensures ret1 == nil ==> ret0.segment == seg && fresh(ret0.reader) && fresh(ret0.index) && ret0.reader.head && ret0.reader.segment == seg
-                            && ret0.messages != nil && ret0.messages.pos >= 0
+    ensures[version_kept] ret1 == nil ==> ret0.version == version && ret0.params == params
+    ensures[struct_parts] ret1 == nil ==> ret0 != nil && fresh(ret0) && ret0.segment == seg && ret0.index != nil && ret0.reader != nil && ret0.messages != nil
+                            && fresh(ret0.reader) && fresh(ret0.index) && ret0.reader.head && ret0.reader.segment == seg
+    // C02: NextOffset of a (re)opened head is one past its last index item, or the base of an empty segment
+    ensures[struct_next]  ret1 == nil ==> ret0.index.nextOffset == ite(len(ret0.index.items) > 0, ret0.index.items[len(ret0.index.items)-1].Offset + 1, seg.Offset)
+    ensures[sync_ok]      ret1 == nil ==> wOK(ret0)
+    ensures[sync_frame]   forall g *os.File :: !fresh(g) ==> fPath[g] == old(fPath[g])
+    ensures[sync_others]  forall p string :: p != seg.Log && p != seg.Index ==> fsDirty[p] == old(fsDirty[p]) && fsExists[p] == old(fsExists[p]) && fsContent[p] == old(fsContent[p])
+    // ASSUMED (content of the files)
+    ensures ret1 == nil ==> ret0.messages.pos >= 0
                             && wfItems(ret0.index.items, ret0.index.nextOffset) && ret0.index.nextOffset >= seg.Offset
                             && (len(ret0.index.items) > 0 ==> ret0.index.items[0].Offset >= seg.Offset)
                             && len(ret0.index.items) <= 1152921504606846976 - 1048576
     // a segment file that did not exist before starts empty at its base offset
     ensures ret1 == nil && !old(fsExists[seg.Log]) ==> len(ret0.index.items) == 0 && ret0.index.nextOffset == seg.Offset
-    ensures ret1 == nil ==> ret0 != nil && fresh(ret0) && wOK(ret0) && ret0.index != nil && ret0.reader != nil
-    ensures ret1 == nil ==> ret0.segment == seg && fsExists[seg.Log]
-    ensures forall g *os.File :: !fresh(g) ==> fPath[g] == old(fPath[g])
-    ensures forall p string :: p != seg.Log && p != seg.Index ==> fsDirty[p] == old(fsDirty[p]) && fsExists[p] == old(fsExists[p]) && fsContent[p] == old(fsContent[p])
+    ensures ret1 == nil ==> fsExists[seg.Log]
 
 func (*writer).Sync
     flags noframe only_sync
